@@ -1,9 +1,11 @@
 import AmVerif.Model.UpdateText
+import AmVerif.Model.Reconcile
 import AmVerif.Model.Wire
 /-
   Engine `recon` (C27), model side.  `recon.update_text` is replayed through the Myers model and the
-  width-indexed text model; the bulk-construction / update_object / update_spans commands are decided
-  by the direct oracles of the harness and answered `skip` here.
+  width-indexed text model; `recon.update_object` (without concurrent puts) through the value-level
+  model of `update_map` / `update_list` / `update_value`; the bulk-construction and update_spans
+  commands are decided by the direct oracles of the harness and answered `skip` here.
 -/
 namespace Driver.Recon
 open AmVerif AmVerif.Wire AmVerif.Myers AmVerif.UpdateText
@@ -75,6 +77,26 @@ def exec (toks : List String) : List String :=
         | .panic p => s!"panic {showPanic p}"
       [l1, l2]
     | _, _, _, _, _, _ => ["bad-input"]
+  | ["recon.update_object", _enc, old, new, path, conc] =>
+    -- with concurrent puts merged in, the value before the call is not the `old` of the line: not modelled
+    if conc != "-" then ["skip"] else
+    match Reconcile.parse old, Reconcile.parse new with
+    | some oldv, some newv =>
+      let target : Option Reconcile.Val :=
+        if path == "_" then some oldv else
+        match oldv with
+        | .map kvs => match Reconcile.lookupKey path kvs with
+          | some (.scalar _) => none
+          | r => r
+        | _ => none
+      match target with
+      | none => ["err path"]
+      | some t =>
+        match Reconcile.updateObject 64 t newv with
+        | .ok v => [s!"ok {Reconcile.showVal v}"]
+        | .error .changeType => ["err changetype"]
+        | .error .outOfFuel => ["outOfFuel"]
+    | _, _ => ["bad-input"]
   | cmd :: _ =>
     if cmd.startsWith "recon." then ["skip"] else ["unknown-cmd"]
   | [] => ["bad-input"]
